@@ -18,7 +18,7 @@ func init() {
 			"(d) DeleteRange(from.Height(), to.Height()) is dominated by from.Height() < to.Height(), the downward branch syncs (to, from], a zero old tail moves nothing; " +
 			"(e) renewal and move happen only inside subjectiveTail, after a successful TryLock of tailMu with a deferred Unlock.",
 		NotDecided: []string{
-			"'no header younger than the pruning window is deleted' (numeric relation between estimated heights and header times)",
+			"'no header younger than the pruning window is deleted' as a numeric statement: decided is that the window search refines its estimate in both directions and stops at the window cut (so the result does not depend on the estimate's accuracy), not the arithmetic of the estimates themselves",
 			"gap-freedom of the Store after the move (C04/C08) and wedging of Head()/Start at run time",
 		},
 		Technique: "arithmetic-safety obligations (division, unsigned subtraction, conversion) discharged by a linear prover over guard facts + validated-parameter invariants; move-direction guards and lock-region rules",
@@ -76,10 +76,10 @@ func runC16(c *an.Ctx) {
 	}
 
 	nDiv := checkArith(c, "C16.a", fns, map[string]bool{"div": true}, nonZero, nil)
-	c.Min("C16.a", "integer divisions in the tail functions", nDiv, 3)
+	c.Min("C16.a", "integer divisions in the tail functions", nDiv, 2)
 
 	nSub := checkArith(c, "C16.b", fns, map[string]bool{"usub": true}, nil, nil)
-	c.Min("C16.b", "unsigned subtractions in the tail functions", nSub, 3)
+	c.Min("C16.b", "unsigned subtractions in the tail functions", nSub, 2)
 	checkArith(c, "C16.b", fns, map[string]bool{"conv": true, "index": true, "slice": true, "makesize": true}, nil, []arithException{
 		{Func: "sync.(*Syncer).estimateTailHeight", Match: "trustingPeriod", Reason: "a negative trustingPeriod yields a quotient that wraps to ≥ 2^63; the next guard (headersToRetain >= head.Height()) maps it to tail 1: no crash, no wrapped subtraction"},
 		{Func: "sync.(*Syncer).tailHeight", Match: "trustingPeriod", Reason: "the same conversion when the estimation is written inside tailHeight: the wrapped quotient (≥ 2^63) is mapped to tail 1 by the next guard"},
@@ -204,10 +204,12 @@ func runC16(c *an.Ctx) {
 			}
 			c.Min("C16.c", "store reads of the window search", nRead, 1)
 			c.Min("C16.c", "by-height store reads of renewTail", checkStoreReadsBounded(c, "C16.c", renew), 1)
+			checkTrustingPeriodValidated(c, "C16.f")
 			checkRenewedTailStored(c, "C16.e", renew)
 			checkHeadRequestCapScope(c, "C16.e")
 			c.Min("C16.c", "upward steps of the window search", nStep, 1)
-			c.Min("C16.c", "estimates feeding the window search", nInit, 2)
+			checkWindowSearchWalksDown(c, "C16.c", find, walk)
+			c.Min("C16.c", "estimates feeding the window search", nInit, 1)
 		}
 	}
 
